@@ -196,19 +196,8 @@ theorem speedOf_formula (ref t b m : Rat) : speedOf ref ⟨t, some b, some m⟩ 
 theorem speedFrame_noSv (bpms : List Tp) (svs : List Sv) (omin omax : Rat) :
     speedFrame false bpms svs omin omax = (bpmFrame bpms omin omax).map (fun r => ⟨r.1, r.2, some 1⟩) := rfl
 
-/-- **the step-function mechanism**, for every frame: each row of `.ffill()` sits at the offset of an input
-row and carries the last valid value among the rows up to and including it (in frame order) -/
-theorem ffill_last_valid (l : List Row) (x : Row) (hx : x ∈ ffill l) :
-    ∃ a r b, l = a ++ r :: b ∧ x = (r.1, lastSome ((a ++ [r]).map (·.2))) := by
-  have := mem_ffillAux l [] x (by simpa [ffill, lastSome] using hx)
-  simpa using this
-
-/-- … and that value, when there is one, is the value of a row at or before it with only empty rows in between -/
-theorem ffill_value_source (l : List Row) (x : Row) (v : Rat) (hx : x ∈ ffill l) (hv : x.2 = some v) :
-    ∃ a r b, l = a ++ r :: b ∧ x.1 = r.1 ∧
-      ∃ v1 v2, (a ++ [r]).map (·.2) = v1 ++ some v :: v2 ∧ ∀ w ∈ v2, w = none := by
-  obtain ⟨a, r, b, hl, rfl⟩ := ffill_last_valid l x hx
-  exact ⟨a, r, b, hl, rfl, lastSome_eq_some hv⟩
+/- `ffill_last_valid`, `ffill_value_source` (the step-function mechanism, for every frame) live in
+`Lemmas/AnalysisSpeed.lean`. -/
 
 /-- **ffill_active** — the forward fill of a tempo frame is the active-tempo step function. For every list of
 tempo points with distinct times and *every* arrangement `l` of the frame's rows that is sorted by offset and
